@@ -1,6 +1,7 @@
 from common import COMMON_ASSUME
 
 PROP = dict(
+    technique='property-based testing: bound oracle - destination allocated at exactly the advertised size (ASan redzone / canary), worst-case-biased generators',
     harness=['c03_bounds.c', 'vf_arr.c'],
     level_text=('generated-input search: every array encoder that has a sizing '
                 'function (delta signed/unsigned, RLE plain/with header, Elias '
